@@ -6,16 +6,16 @@ objects) is read with a raw_decode loop, source lines are reconstructed in docum
 change), and every function with a body (methods defined in the .cpp, inline methods of the class, lambdas stay inside their
 function) is kept as a *pruned* tree (only the keys the abstract interpreter in c27_guards.py reads).
 
-Cache: /verif/.build/cache/c27/<sha256(file content, digest of all headers, filter, command)>.json.gz
+Cache: /verif/.build/cache/c27/<sha256(file content, digest of all headers, filter, command)>.pickle
 """
-import glob, gzip, hashlib, json, os, re, subprocess, concurrent.futures
+import glob, gzip, hashlib, json, os, pickle, re, subprocess, concurrent.futures
 
 from .. import core
 
 REPO = core.REPO
 CACHE = os.path.join(core.VERIF, ".build", "cache", "c27")
 INCS = ["lib", "externals", "externals/simplecpp", "externals/tinyxml2", "externals/picojson"]
-VERSION = "3"      # bump when the pruning changes
+VERSION = "5"      # bump when the pruning changes
 
 
 def clang_cmd(flt):
@@ -162,6 +162,33 @@ def prune(n):
     return o
 
 
+def renumber(objs):
+    """clang's node ids are addresses (different in every run): replace them by numbers in document order, so that the keys
+    the interpreter derives from them — and with them the generated Lean table — only depend on the source"""
+    m = {}
+
+    def nid(x):
+        if x is None:
+            return None
+        if x not in m:
+            m[x] = "n%d" % len(m)
+        return m[x]
+
+    def rec(n):
+        if not isinstance(n, dict):
+            return
+        for k in ("id", "referencedMemberDecl", "parentDeclContextId", "previousDecl"):
+            if k in n:
+                n[k] = nid(n[k])
+        r = n.get("ref")
+        if isinstance(r, dict) and "id" in r:
+            r["id"] = nid(r["id"])
+        for c in n.get("inner", []):
+            rec(c)
+    for o in objs:
+        rec(o)
+
+
 def has_body(fn):
     return any(isinstance(c, dict) and c.get("kind") == "CompoundStmt" for c in fn.get("inner", []))
 
@@ -222,10 +249,11 @@ def extract_one(path, flt, fresh=False):
     os.makedirs(CACHE, exist_ok=True)
     cmd = clang_cmd(flt)
     key = hashlib.sha256(("\0".join([VERSION, open(path, "rb").read().decode("latin-1"), headers_digest(), flt] + cmd)).encode("latin-1")).hexdigest()
-    cp = os.path.join(CACHE, key + ".json.gz")
+    cp = os.path.join(CACHE, key + ".pickle")
     if os.path.exists(cp) and not fresh:
         try:
-            return json.load(gzip.open(cp, "rt")), True
+            with open(cp, "rb") as f:
+                return pickle.load(f), True
         except Exception:
             pass
     r = subprocess.run(cmd + [os.path.relpath(path, REPO)], cwd=REPO, stdout=subprocess.PIPE, stderr=subprocess.PIPE)
@@ -235,18 +263,21 @@ def extract_one(path, flt, fresh=False):
     ls = LocState()
     ls.annotate(objs)
     pr = [prune(o) for o in objs]
+    renumber(pr)
     res = collect(pr, path)
     res["filter"] = flt
     tmp = cp + ".%d.tmp" % os.getpid()
-    with gzip.open(tmp, "wt", compresslevel=3) as f:
-        json.dump(res, f)
+    with open(tmp, "wb") as f:
+        pickle.dump(res, f, protocol=4)
     os.replace(tmp, cp)
     return res, False
 
 
 def prune_cache(keep=200):
     try:
-        fs = sorted(glob.glob(os.path.join(CACHE, "*.json.gz")), key=os.path.getmtime)
+        for p in glob.glob(os.path.join(CACHE, "*.json.gz")):
+            os.remove(p)
+        fs = sorted(glob.glob(os.path.join(CACHE, "[0-9a-f]*.pickle")), key=os.path.getmtime)
         for p in fs[:-keep]:
             os.remove(p)
     except OSError:
@@ -260,9 +291,16 @@ def extract_all(fresh=False, workers=3):
         for c in classes_in(p):
             jobs.append((p, c))
     out, hits = [], 0
-    with concurrent.futures.ThreadPoolExecutor(max_workers=workers) as ex:
-        for res, hit in ex.map(lambda j: extract_one(j[0], j[1], fresh), jobs):
-            out.append(res)
-            hits += 1 if hit else 0
+    import gc
+    was = gc.isenabled()
+    gc.disable()            # unpickling millions of small dicts: the cyclic collector only slows it down
+    try:
+        with concurrent.futures.ThreadPoolExecutor(max_workers=workers) as ex:
+            for res, hit in ex.map(lambda j: extract_one(j[0], j[1], fresh), jobs):
+                out.append(res)
+                hits += 1 if hit else 0
+    finally:
+        if was:
+            gc.enable()
     prune_cache()
     return out, dict(dumps=len(jobs), cache_hits=hits, files=len(set(j[0] for j in jobs)))
